@@ -17,7 +17,7 @@ RULE = ("directed graphs as (node iterable, neighbour callback) built by stratif
 ASSUMPTIONS = ["node iterable yields distinct hashable labels (duplicates in `nodes` are not generated)",
                "the neighbour callback is a pure function of its argument; it may be called on any label it returned",
                "*_edges variants only on 0..n-1 graphs whose arcs stay inside range(n)",
-               "recursion limit 20000 (worker setting); deepest generated DFS path 400"]
+               "every library call runs under the default recursion limit (1000 frames from the call, vf.common.call); deepest generated DFS path 400"]
 QUICK_SCALE = 2.5  # quick-tier multiplier (idle 16-core timing: ~10 s at scale 1)
 STRATA = [
     ("random-small", 6000, 60000),
